@@ -98,7 +98,7 @@ Proof.
     + destruct (settle_loop t h recs _ faults) as [[s3 f3] g3] eqn:E3. inversion Hsl; subst.
       apply IH in E3 as [H1 H2]. simpl in *. split; [assumption|].
       intros e He. apply H2 in He. eapply utxr_del_In; eassumption.
-    + destruct (negb ((t_method t =? 0) || (t_method t =? 1))); [inversion Hsl; subst; auto|].
+    + destruct (negb (payable_method (t_method t))); [inversion Hsl; subst; auto|].
       destruct (pay_all _ _ _ _ _ _) as [[l'|] faults'].
       * destruct (settle_loop t h recs _ faults') as [[s4 f4] g4] eqn:E4. inversion Hsl; subst.
         apply IH in E4 as [H1 H2]. simpl in *. split; [assumption|].
@@ -215,7 +215,7 @@ Proof.
     destruct (valid_recips (u_recips u0)).
     + destruct (settle_loop t h recs _ f) as [[s3' f3'] g3'] eqn:E'. inversion E3; subst.
       destruct Hin as [<-|Hin]; [split; intros; discriminate|]. eapply IHr; eassumption.
-    + destruct (negb ((t_method t =? 0) || (t_method t =? 1))); [inversion E3; subst; destruct Hin|].
+    + destruct (negb (payable_method (t_method t))); [inversion E3; subst; destruct Hin|].
       destruct (pay_all _ _ _ _ _ _) as [[l'|] faults'].
       * destruct (settle_loop t h recs _ faults') as [[s4 f4] g4] eqn:E'. inversion E3; subst.
         destruct Hin as [<-|Hin]; [split; intros; discriminate|]. eapply IHr; eassumption.
